@@ -906,7 +906,7 @@ class CWLCommand(TokenizedCommand):
                 expression_lib=self.expression_lib,
             )
             if self.stderr is not None
-            else stdout
+            else STDOUT
         )
         # Get timeout
         timeout = self._get_timeout(job=job)
